@@ -120,7 +120,8 @@ def extract_module(path):
                         elif base == "logical":
                             kinds[nm] = "DOther" if isarr else "DLog"
                         elif base == "character":
-                            kinds[nm] = "DOther" if isarr else "DChar"
+                            # (a single character passed by value / without a length is not text with a length: DOther)
+                            kinds[nm] = "DOther" if (isarr or "len" not in md.group(2).lower()) else "DChar"
                         elif base in ("type", "class"):
                             kinds[nm] = "DOther" if ("c_ptr" in attrs or "shroud" in attrs or isarr) else "DObj"
                         else:
